@@ -8,11 +8,11 @@ import (
 
 // KnownFinding is one entry of /verif/known_findings.json.
 type KnownFinding struct {
-	ID          string            `json:"id"`
-	Property    string            `json:"property"`
-	Status      string            `json:"status"` // open | fixed
-	Commit      string            `json:"commit,omitempty"`
-	Description string            `json:"description"`
+	ID          string `json:"id"`
+	Property    string `json:"property"`
+	Status      string `json:"status"` // open | fixed
+	Commit      string `json:"commit,omitempty"`
+	Description string `json:"description"`
 	// Match: all present conditions must hold for a minimised violation to be
 	// this finding. A fixed finding matches nothing.
 	Clause           string            `json:"clause,omitempty"`
